@@ -81,6 +81,63 @@ func phiWeb(fn *ssa.Function, start ssa.Value) map[*ssa.Phi]bool {
 	return web
 }
 
+// errorWeb: connected components of error-like values of fn, where a φ is connected to its operands, a
+// spilled local to everything stored into it, and a call of a function that takes an error-like
+// parameter and returns an error-like result (a helper threading the sticky error through) connects that
+// argument with the call's result.
+func errorWeb(p *Program, fn *ssa.Function) func(a, b ssa.Value) bool {
+	parent := map[ssa.Value]ssa.Value{}
+	var find func(v ssa.Value) ssa.Value
+	find = func(v ssa.Value) ssa.Value {
+		if q, ok := parent[v]; ok && q != v {
+			r := find(q)
+			parent[v] = r
+			return r
+		}
+		parent[v] = v
+		return v
+	}
+	union := func(a, b ssa.Value) {
+		ra, rb := find(a), find(b)
+		if ra != rb {
+			parent[ra] = rb
+		}
+	}
+	for _, b := range fn.Blocks {
+		for _, ins := range b.Instrs {
+			switch x := ins.(type) {
+			case *ssa.Phi:
+				if errorLike(x.Type()) {
+					for _, e := range x.Edges {
+						if !isNilConst(e) {
+							union(x, e)
+						}
+					}
+				}
+			case *ssa.Store:
+				if a, ok := x.Addr.(*ssa.Alloc); ok && errorLike(x.Val.Type()) && !isNilConst(x.Val) {
+					union(a, x.Val)
+				}
+			case *ssa.UnOp:
+				if a, ok := x.X.(*ssa.Alloc); ok && x.Op == token.MUL && errorLike(x.Type()) {
+					union(a, x)
+				}
+			case *ssa.Call:
+				sc := x.Common().StaticCallee()
+				if sc == nil || !p.InRepo(sc) || !errorLike(x.Type()) {
+					continue
+				}
+				for _, a := range x.Common().Args {
+					if errorLike(a.Type()) && !isNilConst(a) {
+						union(x, a)
+					}
+				}
+			}
+		}
+	}
+	return func(a, b ssa.Value) bool { return find(a) == find(b) }
+}
+
 func ruleSTICKYSSA(p *Program, rep *Report) {
 	rep.Rule("STICKY", 2, "every write/sync I/O call of the background writer is dominated by `err == nil` on the sticky writer error that its own result feeds (directly in writer.Run, or in a helper whose error parameter / result carry it); the error is only reset to nil under syncFlags.Test(syncResetErr)")
 	run := p.Method("txfile", "writer", "Run")
@@ -194,13 +251,14 @@ func ruleSTICKYSSA(p *Program, rep *Report) {
 	}
 
 	var runWebRoots []ssa.Value
+	sameWeb := errorWeb(p, run)
 	for _, s := range sites {
 		key := funcName(s.fn) + "|" + s.name
 		ok := false
 		how := ""
 		for _, e := range nilGuards(s.call.Block()) {
 			if s.fn == run {
-				if phiWebReaches(e, s.call, map[ssa.Value]bool{}) {
+				if phiWebReaches(e, s.call, map[ssa.Value]bool{}) || sameWeb(e, s.call) {
 					ok, how = true, "guarded by err == nil on the loop-carried writer error"
 					runWebRoots = append(runWebRoots, e)
 				}
@@ -254,7 +312,7 @@ func ruleSTICKYSSA(p *Program, rep *Report) {
 				}
 				ncs++
 				arg := c.Common().Args[pi]
-				if !phiWebReaches(arg, cv, map[ssa.Value]bool{}) {
+				if !phiWebReaches(arg, cv, map[ssa.Value]bool{}) && !sameWeb(arg, cv) {
 					fed = false
 				} else {
 					runWebRoots = append(runWebRoots, arg)
@@ -285,7 +343,7 @@ func ruleSTICKYSSA(p *Program, rep *Report) {
 			idx := instrIndex(rb, rc)
 			for i := 0; i < idx; i++ {
 				if st, ok := rb.Instrs[i].(*ssa.Store); ok && addrField(st.Addr) == errField {
-					if st.Val == ssa.Value(s.call) || phiWebReaches(st.Val, s.call, map[ssa.Value]bool{}) {
+					if st.Val == ssa.Value(s.call) || phiWebReaches(st.Val, s.call, map[ssa.Value]bool{}) || sameWeb(st.Val, s.call) {
 						okRel = true
 						relPos = p.InstrPos(rc)
 					}
@@ -301,7 +359,15 @@ func ruleSTICKYSSA(p *Program, rep *Report) {
 	// reset edges of the loop-carried error in writer.Run
 	seenPhi := map[*ssa.Phi]bool{}
 	for _, root := range runWebRoots {
-		for phi := range phiWeb(run, root) {
+		web := phiWeb(run, root)
+		for _, b := range run.Blocks {
+			for _, ins := range b.Instrs {
+				if phi, ok := ins.(*ssa.Phi); ok && errorLike(phi.Type()) && sameWeb(phi, root) {
+					web[phi] = true
+				}
+			}
+		}
+		for phi := range web {
 			if seenPhi[phi] {
 				continue
 			}
